@@ -156,7 +156,14 @@ func buildHealthView(r *RunResult, ix *stepIdx, targets map[string]bool) *health
 				if e.Info == "lb.stateChanged" {
 					// with automatic lock yields the update itself runs in a later
 					// step of the same goroutine (the one that takes the balancer's lock)
-					pub = nextStepSeqAfter(evs, ix.lockTail(e, "").Seq)
+					tail := ix.lockTail(e, "")
+					pub = nextStepSeqAfter(evs, tail.Seq)
+					if tail == e && ix.hasLockSteps(e.Task) {
+						// automatic yields are on for this goroutine and it has not
+						// been released from the yield in front of the balancer's
+						// lock yet (the run may end first): nothing is published
+						pub = 0
+					}
 					hv.changes = append(hv.changes, e.Seq)
 				}
 				if o := pendingPublish[e.Target]; o != "" && pub > 0 {
